@@ -1,20 +1,25 @@
 (* The request/response interface the extracted driver serves. *)
 From Coq Require Import ZArith NArith List Bool.
 From Coq Require Import Strings.Byte.
-Require Import Bytes Value Expr Codec Float Stream Syntax Sizeof Parse Build.
+Require Import Bytes Value Expr Codec Float Stream Syntax Sizeof Parse Build Hex Containers.
 Import ListNotations.
 
 Inductive request :=
 | RParse (c : con) (kw : list (name * val)) (data : bytes) (start : N)
 | RBuild (c : con) (obj : val) (kw : list (name * val))
 | RSizeof (c : con) (kw : list (name * val))
-| REval (e : expr) (kw : list (name * val)).
+| REval (e : expr) (kw : list (name * val))
+| RHexdump (data : bytes) (linesize : N)
+| RHexundump (text : bytes) (linesize : N)
+| RCops (ops : list cop).
 
 Inductive response :=
 | ROkParse (v : val) (pos : Z)
 | ROkBuild (ret : val) (out : bytes)
 | ROkSize (n : Z)
 | ROkVal (v : val)
+| ROkBytes (b : bytes)
+| ROuts (o : list cout)
 | RErr (e : err) (p : option path).
 
 Definition run (r : request) : response :=
@@ -39,4 +44,9 @@ Definition run (r : request) : response :=
       | Ok v => ROkVal v
       | Err e p => RErr e p
       end
+  | RHexdump data ls =>
+      match hexdump data (N.to_nat ls) with Some s => ROkBytes s | None => RErr EValue None end
+  | RHexundump text ls =>
+      match hexundump text (N.to_nat ls) with Some s => ROkBytes s | None => RErr EValue None end
+  | RCops ops => ROuts (run_cops ops)
   end.
